@@ -182,9 +182,22 @@ func TestC07(t *testing.T) {
 				case 2:
 					n = min(n, 1+uniform(t, "wn_small", 7))
 				}
-				b := bstream[bpos : bpos+n]
+				// hand Write a scratch buffer with sentinel-filled spare capacity and scribble
+				// over it afterwards, as a relay that reuses its buffer (io.CopyBuffer) does:
+				// io.Writer implementations must not retain or modify the slice
+				scratch := make([]byte, n, n+8)
+				copy(scratch, bstream[bpos:bpos+n])
+				copy(scratch[n:cap(scratch)], "\xa5\xa5\xa5\xa5\xa5\xa5\xa5\xa5")
+				b := scratch
 				var k int
 				e := guard(func() error { var e error; k, e = c.Write(b); return e })
+				if string(scratch[n:cap(scratch)]) != "\xa5\xa5\xa5\xa5\xa5\xa5\xa5\xa5" || !bytes.Equal(scratch, bstream[bpos:bpos+n]) {
+					rp["ops"] = ops
+					ev.Violation(t, "C07", rp, "Write modified the caller's buffer (or its spare capacity)")
+				}
+				for i := range scratch[:cap(scratch)] {
+					scratch[:cap(scratch)][i] = 0xee
+				}
 				ops = append(ops, fmt.Sprintf("w%d", n))
 				if e != nil || k != n {
 					rp["ops"] = ops
